@@ -96,7 +96,8 @@ theorem propagate_inv {orig : Cnf} : ∀ (fuel : Nat) (n : Net) (L : Cnf) (fr : 
             ⟨by
               show ∀ e ∈ t.vAsrts, e.1 < n.sat.vals.length
               rw [((Lra.C09_core_iff n.lra t).1 (Lra.C09_core_check fuel n.lra t c hchk)).2.1]; exact h.reg.lra,
-             h.reg.idl, h.reg.rdl, Lra.check_good fuel n.lra t c h.reg.good hchk⟩⟩
+             h.reg.idl, h.reg.rdl, Lra.check_good fuel n.lra t c h.reg.good hchk,
+             by rw [Lra.check_aWatches h.th.base.lra.inv.tab hchk]; exact h.reg.aw⟩⟩
         cases c with
         | none =>
           simp only [Option.some.injEq, Prod.mk.injEq] at he
